@@ -119,7 +119,7 @@ func (kl *keyLister) emptyFact(f string) func(cfgq.Fact) bool {
 // entry -> n -> send on which n's value survives (no other definition of top that does not extend
 // it) and no branch establishes that the list is empty.
 func (kl *keyLister) unfiltered(n ast.Node, top types.Object) {
-	np, ok := kl.g.Find(n)
+	np, ok := tt.Find(kl.g, n)
 	if !ok {
 		return
 	}
@@ -166,7 +166,7 @@ func (kl *keyLister) list(obj, top types.Object, depth int) int {
 			}
 			continue // var declaration
 		}
-		if _, ok := g.Find(as); !ok {
+		if _, ok := tt.Find(g, as); !ok {
 			continue
 		}
 		if b := pat.Expr("append(_l, _x)").Match(info, d.Rhs, nil); b != nil && identObj(info, b["_l"].(ast.Expr)) == obj {
@@ -215,6 +215,10 @@ func (kl *keyLister) list(obj, top types.Object, depth int) int {
 								return loop != nil && (b2.Kind == cfg.KindRangeLoop || b2.Kind == cfg.KindForLoop) && b2.Stmt == loop
 							}})
 					}
+				}
+				if w != nil && x.Shaky {
+					c.Undecidedf("R4.polarity", key, call.Pos(), "whether a key for which filter.FilterKey answered true is put on the list depends on a call that receives the answer and is not evaluated")
+					continue
 				}
 				c.Check("R4.polarity", key, call.Pos(), w == nil, "'return true means not pass': a key for which filter.FilterKey answered true must not be put on the list of keys to copy; otherwise "+why, w...)
 			}
